@@ -521,6 +521,8 @@ def follow_up(ctx, world, case, where, kind="good"):
     """the next sync, in a fresh process.  kind "good": it must complete and give the new tree.
     kind "truncated"/"status": it fails (unpack / download); the tree that is there after the syncer's own
     recovery must then be a complete old or new tree, and an intact tree must not have been touched."""
+    if kind == "none":  # tiny task: only the state right after the injection is judged
+        return
     sc = world.sc
     stale = world.stale()
     before = world.state()
@@ -625,7 +627,15 @@ def run_point(ctx, world, events, k, mode, follow="good"):
         ok, why = world.old_untouched()
         if not ok:
             ctx.violation(f"{ph}:failed-sync-touched-tree@{sig}:{mode}", case, f"{where}: previous tree modified: {why}")
+    _persist(ctx)
     follow_up(ctx, world, case, where, follow)
+    _persist(ctx)
+
+
+def _persist(ctx):
+    """every judged injection point is worth keeping if the runner has to abandon this task (a point costs seconds under load)"""
+    if getattr(ctx, "_ckpt_path", None):
+        ctx.checkpoint()
 
 
 def run_midtar(ctx, world):
@@ -645,6 +655,8 @@ def run_midtar(ctx, world):
 
 
 def run_scenario(ctx, lb, sc, idx, limit=None, pick=None):
+    if ctx.out_of_time():
+        return
     world = World(ctx.fresh_dir("w"), sc, lb, f"b{idx}")
     try:
         events = run_complete(ctx, world)
@@ -709,7 +721,35 @@ def core_points(events):
     return pts
 
 
+TINY = {"comp": "gz", "prev": "plain", "old": {"files": [0], "extras": [], "salt": 3}, "new": {"files": [1], "extras": [], "salt": 4},
+        "force": False, "server": {"kind": "status", "frac": 50, "status": 404, "etag": False, "lastmod": False}}
+
+
+def run_tiny(ctx, lb):
+    """cheapest scenario there is (HTTP 404: three events, no tar, no follow-up sync): something is judged within the
+    first seconds of a run whatever the load; the first points are judged even past the generation guard"""
+    world = World(ctx.fresh_dir("w"), TINY, lb, "tiny")
+    try:
+        res = crash.dry_run(world.sync_op(world.uri, False), [world.live])
+        if res.status == "died":
+            raise core.HarnessError(f"sync child died (code {res.code})")
+        ok, why = world.old_untouched()
+        if res.status == "completed" or not ok:
+            ctx.violation("resync:failed-download-touched-tree:status:" + world.state(), {"scenario": TINY, "point": "complete"},
+                          f"HTTP 404: sync {res.status}, previous tree: {why}")
+        pts = sorted(crash.points(res.events), key=lambda p: (p[0] == 1 and p[1] != "after", p))
+        for i, (k, mode) in enumerate(pts):
+            if i >= 3 and ctx.out_of_time():
+                break
+            run_point(ctx, world, res.events, k, mode, "none")
+    finally:
+        lb.srv.blobs.pop("tiny", None)
+        shutil.rmtree(world.top, ignore_errors=True)
+
+
 def run_core(ctx, lb, follow):
+    if ctx.out_of_time():
+        return
     sc = CORE[follow]
     world = World(ctx.fresh_dir("w"), sc, lb, "core")
     try:
@@ -723,6 +763,8 @@ def run_core(ctx, lb, follow):
             return
         ctx.count("scenarios")
         for k, mode in core_points(res.events):
+            if ctx.out_of_time():
+                break
             run_point(ctx, world, res.events, k, mode, follow)
     finally:
         lb.srv.blobs.pop("core", None)
@@ -735,6 +777,8 @@ N_SCEN = {"quick": {"good": (8, 1), "bad": (5, 1)}, "thorough": {"good": (16, 12
 def plan(tier, seed):
     tasks = []
     only = os.environ.get("VF_C47_ONLY", "")  # development aid: "good", "bad" or "core"
+    if not only:
+        tasks.append({"task": "tiny"})
     if not only or only == "core":
         for f in FOLLOW:  # first: kill points around the tree swap x what the next sync does
             tasks.append({"task": "core", "follow": f})
@@ -748,10 +792,7 @@ def plan(tier, seed):
 
 
 def warm_up(ctx, lb):
-    sc = {"comp": "gz", "prev": "plain", "old": {"files": [0], "extras": [], "salt": 0}, "new": {"files": [1], "extras": ["symlink"], "salt": 1},
-          "server": {"kind": "good", "frac": 50, "status": 404, "etag": True, "lastmod": True}, "force": False}
-    w = World(ctx.fresh_dir("warm"), sc, lb, "warm")
-    # import in this process what the forked children need
+    """import in this process what the forked children need (no sync is run here: every fork is expensive under load)"""
     import http.client  # noqa: F401
     import ssl  # noqa: F401
     import subprocess  # noqa: F401
@@ -760,17 +801,16 @@ def warm_up(ctx, lb):
 
     import pkgcore.sync.tar  # noqa: F401
 
-    res = crash.dry_run(w.sync_op(w.uri, False), [w.live])  # outcome is not judged here, only that the harness works
-    if res.status == "died":
-        raise core.HarnessError(f"warm-up sync child died: {res.code}")
-    lb.srv.blobs.pop("warm", None)
-    shutil.rmtree(w.top, ignore_errors=True)
-
 
 def run_task(ctx, task, grp=None, n=0, part=0, follow=None):
+    if task != "tiny" and ctx.out_of_time():
+        return
     lb = Loopback()
     try:
         warm_up(ctx, lb)
+        if task == "tiny":
+            run_tiny(ctx, lb)
+            return
         if task == "core":
             run_core(ctx, lb, follow)
             return
